@@ -199,7 +199,7 @@ def run(tier, replay=None):
                 "D(s), D(D(s)), s'(r_c) and the force-shift identities against the documented closed forms as invariants in "
                 "every state; one state per (model, shift, parameter point). Every emitted point is replayed at every distance "
                 "of its grid into the direct method and into caller() (all parameters supplied); distinct = parameter points.")
-    chk.rule += (" Boundary values of the domain (A = 0, A < 0, eps = 0, eps < 0, r_c = sigma, Hertz at contact for integer alpha >= 3) are "
+    chk.rule += (" Boundary values of the domain (A = 0, A < 0, eps = 0, eps < 0, r_c = sigma) are "
                  "points of the grid; integer-valued numbers are also passed as Python ints, parameters of other models omitted, ipl_A omitted. "
                  "Sessions (MC_PairPotSession): all ordered pairs of calls of the pool followed by hash-chosen calls, every returned triple held "
                  "and compared after the last call (clauses InvHeld / KeepHeld).")
